@@ -253,13 +253,31 @@ func (s *settings) GetBySwampName(swampName name.Name) setting.Setting {
 	s.mu.RLock()
 	defer s.mu.RUnlock()
 
-	if len(s.patterns) > 0 {
-		for _, pi := range s.patterns {
-			// compare if the pattern is math with the swamp name
-			if swampName.ComparePattern(pi.GetPattern()) {
-				return pi
-			}
+	// Several registered patterns may match the same swamp (an exact pattern and wildcard
+	// patterns). Map iteration order is random, so the winner must not depend on it: the most
+	// specific matching pattern wins (an exact realm counts more than an exact swamp), and
+	// the pattern key breaks any remaining tie.
+	var best setting.Setting
+	bestScore, bestKey := -1, ""
+	for key, pi := range s.patterns {
+		// compare if the pattern is math with the swamp name
+		pattern := pi.GetPattern()
+		if !swampName.ComparePattern(pattern) {
+			continue
 		}
+		score := 0
+		if pattern.GetRealmName() != "*" {
+			score += 2
+		}
+		if pattern.GetSwampName() != "*" {
+			score++
+		}
+		if score > bestScore || (score == bestScore && key < bestKey) {
+			best, bestScore, bestKey = pi, score, key
+		}
+	}
+	if best != nil {
+		return best
 	}
 
 	// ha nem találunk olyan beállítást, ami a megadott mintához tartozik, akkor visszaadjuk az alapértelmezett beállítást
